@@ -178,4 +178,14 @@ example : mode .sse .w16 (.add (.leaf 0) (.mul (.leaf 0) (.leaf 1))) = .serial :
 example : compiles .sse .w16 8 (.mul (.add (.leaf 0) (.leaf 1)) (.leaf 2)) = false := by decide
 example : compiles .sse .w64 8 (.mul (.add (.leaf 0) (.leaf 1)) (.leaf 2)) = true := by decide
 
+/-! a degree that is not a power of two: 24 coefficients, 16-bit limbs, SSE (3 registers of 8 per modulus row; the AVX2
+width 16 does not divide 24: `a = a + b` is rejected there by the library's `static_assert`, the theorems' `∣` hypothesis) -/
+def exCtx24 : Ctx := { l := .w16, deg := 24, rows := Nfl.Gen.table16.rows }
+def exStore24 : Store := [(List.range 48).map (fun i => (i * 300 + 7) % 13313), (List.range 48).map (13312 - · * 2)]
+example : eltCount exCtx24.l .sse ∣ exCtx24.deg ∧ ¬ eltCount exCtx24.l .avx2 ∣ exCtx24.deg := by decide
+example : compiles .sse .w16 24 (.add (.leaf 0) (.leaf 1)) = true ∧ compiles .avx2 .w16 24 (.add (.leaf 0) (.leaf 1)) = false := by decide
+example : admB exCtx24 exStore24 (.add (.leaf 0) (.leaf 1)) = true := by decide
+example : (assign exCtx24 .sse 0 (.add (.leaf 0) (.leaf 1)) exStore24).getD 0 [] =
+    pointwise exCtx24 exStore24 (.add (.leaf 0) (.leaf 1)) := by decide
+
 end Nfl.C07
